@@ -20,6 +20,9 @@ pub struct ShapeEntry {
     /// the receiver also converts the body (`data: ast::Data<..>`): a union fails there whatever
     /// the declared set says
     pub converts_body: bool,
+    /// the declaration repeats `supports(..)`: `mask` is the last list, `alt_mask` the union of
+    /// the lists; either reading of the repetition is accepted, nothing else
+    pub alt_mask: Option<usize>,
     pub run: Runner,
 }
 
@@ -354,7 +357,8 @@ pub fn main(entries: Vec<ShapeEntry>) {
             let vr = c["variant_receiver"].as_bool().unwrap_or(false);
             let src = c["src"].as_str().unwrap();
             let gathered = c["gathered"].as_bool().unwrap_or(false);
-            let e = entries.iter().find(|e| e.mask == mask && e.variant_receiver == vr && e.gathered == gathered).expect("receiver of this shard");
+            let alt = c["alt_mask"].as_u64().map(|a| a as usize);
+            let e = entries.iter().find(|e| e.mask == mask && e.variant_receiver == vr && e.gathered == gathered && e.alt_mask == alt).expect("receiver of this shard");
             let obs = (e.run)(src);
             println!("replay mask={mask:#b} `{src}`: {obs:?}");
             if vr {
@@ -426,6 +430,24 @@ pub fn main(entries: Vec<ShapeEntry>) {
                     t.hit("api_vs_derived");
                 }
                 t.hit("variant_receivers");
+                return t;
+            }
+            if let Some(alt) = e.alt_mask {
+                for (src, body) in &bs {
+                    let obs = (e.run)(src);
+                    let mut t1 = Tally::default();
+                    let mut t2 = Tally::default();
+                    judge("FromDeriveInput (supports written twice: last list)", e.mask, src, &expected(e.mask, body), &obs, &mut t1);
+                    judge("FromDeriveInput (supports written twice: union of the lists)", alt, src, &expected(alt, body), &obs, &mut t2);
+                    if !t1.violations.is_empty() && !t2.violations.is_empty() {
+                        let mut v = t1.violations.remove(0);
+                        v.what = format!("{} - nor does the union of the two lists explain it: {}", v.what, t2.violations[0].what);
+                        v.case["alt_mask"] = json!(alt);
+                        t.violate(v);
+                    }
+                    t.evaluations += 1;
+                    t.hit("supports_written_twice");
+                }
                 return t;
             }
             for (src, body) in &bs {
